@@ -326,7 +326,8 @@ package flyt
 //@   ensures [C01] old(n.prepFunc) != nil ==> calls == 1
 //@   ensures [C01] old(n.prepFunc) == nil ==> calls == 0 && v == nil && err == nil
 //@   ensures [C01,C17] calls == 1 && ue == nil ==> err == nil && v == valueOf(ur)
-//@   ensures [C01,C04] calls == 1 && ue != nil ==> err == ue && v == nil
+//@   ensures [C01] calls == 1 && ue != nil ==> err != nil
+//@   ensures [C04] calls == 1 && ue != nil ==> err == ue && v == nil
 
 //@ func (*CustomNode).Exec(n, ctx, prepResult) (v, err)
 //@   requires n != nil && n.BaseNode != nil
@@ -351,7 +352,8 @@ package flyt
 //@     requires [C17] !isType(prepResult, Result) ==> p == Result{prepResult, nil}
 //@     requires [C17] r == wrapAny(execResult)
 //@     effect calls = 1; ua = act; ue = e
-//@   ensures [C01,C04] old(n.postFunc) != nil ==> calls == 1 && a == ua && err == ue
+//@   ensures [C01] old(n.postFunc) != nil ==> calls == 1 && a == ua && ((ue != nil) == (err != nil))
+//@   ensures [C04] old(n.postFunc) != nil ==> calls == 1 && err == ue
 //@   ensures [C01] old(n.postFunc) == nil ==> calls == 0 && a == DefaultAction && err == nil
 
 //@ func (*CustomNode).ExecFallback(n, prepResult, e0) (v, err)
@@ -361,8 +363,10 @@ package flyt
 //@   on call field CustomNode.execFallbackFunc(fn, p, e) returns (rv, re)
 //@     requires [C01,C02] calls == 0 && fn == n.execFallbackFunc && p == prepResult && e == e0
 //@     effect calls = 1; uv = rv; ue = re
-//@   ensures [C01,C02,C04] old(n.execFallbackFunc) != nil ==> calls == 1 && v == uv && err == ue
-//@   ensures [C01,C02,C04] old(n.execFallbackFunc) == nil ==> calls == 0 && v == nil && err == e0
+//@   ensures [C01,C02] old(n.execFallbackFunc) != nil ==> calls == 1 && ((ue != nil) == (err != nil)) && (ue == nil ==> v == uv)
+//@   ensures [C02,C04] old(n.execFallbackFunc) != nil ==> calls == 1 && err == ue
+//@   ensures [C01,C02] old(n.execFallbackFunc) == nil ==> calls == 0 && v == nil && ((e0 != nil) == (err != nil))
+//@   ensures [C02,C04] old(n.execFallbackFunc) == nil ==> calls == 0 && err == e0
 
 // NodeBuilder: pure delegation to the embedded CustomNode / BaseNode
 //@ func (*NodeBuilder).Prep(b, ctx, shared) (v, err)
@@ -1073,12 +1077,15 @@ package flyt
 //@   requires forall j int :: 0 <= j && j < len(opts) && isType(opts[j], NodeOption) ==> opts[j].(NodeOption) != nil
 //@   havoc user
 //@   ghost baseAcc []NodeOption = slice(0, 0, 0, 0); custAcc []CustomNodeOption = slice(0, 0, 0, 0); kb int = 0; kc int = 0; i int = 0
+//@   ghost bidx [int]int = zeroArr([int]int); inv [int]int = zeroArr([int]int); cidx [int]int = zeroArr([int]int); cinv [int]int = zeroArr([int]int)
 //@   on call NewBaseNode(o) returns (bn)
 //@     requires [C19] len(o) == 0
 //@   on call builtin.append<[]NodeOption>(s0, e) returns (acc)
-//@     effect baseAcc = acc
+//@     requires [C19] s0 == baseAcc && len(e) == 1 && 0 <= i && i < len(opts) && !implements(opts[i], CustomNodeOption) && isBaseOpt(opts[i]) && e[0] == asBaseOpt(opts[i])
+//@     effect bidx[len(baseAcc)] = i; inv[i] = len(baseAcc); baseAcc = acc
 //@   on call builtin.append<[]CustomNodeOption>(s0, e) returns (acc)
-//@     effect custAcc = acc
+//@     requires [C19] s0 == custAcc && len(e) == 1 && 0 <= i && i < len(opts) && implements(opts[i], CustomNodeOption) && e[0] == opts[i]
+//@     effect cidx[len(custAcc)] = i; cinv[i] = len(custAcc); custAcc = acc
 //@   on call elem carried<[]NodeOption>(fn, b)
 //@     requires [C19] fn == baseAcc[kb] && b == alloc(CustomNode, 1).BaseNode && kc == 0
 //@     effect kb++
@@ -1086,9 +1093,15 @@ package flyt
 //@     requires [C19] o == custAcc[kc] && n == alloc(CustomNode, 1) && kb == len(baseAcc)
 //@     effect kc++
 //@   loop 1 step i++
-//@   loop 1 invariant [C19] 0 <= i && i <= len(opts) && kb == 0 && kc == 0 && len(baseAcc) <= i && len(custAcc) <= i
+//@   loop 1 invariant 0 <= i && i <= len(opts) && kb == 0 && kc == 0 && len(baseAcc) <= i && len(custAcc) <= i && framed([]any)
 //@   loop 1 invariant [C19] forall j int :: 0 <= j && j < len(baseAcc) ==> baseAcc[j] != nil
 //@   loop 1 invariant [C19] forall j int :: 0 <= j && j < len(custAcc) ==> custAcc[j] != nil
+//@   loop 1 invariant [C19] forall j int :: 0 <= j && j < len(baseAcc) ==> 0 <= bidx[j] && bidx[j] < i && baseAcc[j] == asBaseOpt(opts[bidx[j]])
+//@   loop 1 invariant [C19] forall j int :: forall k int :: 0 <= j && j < k && k < len(baseAcc) ==> bidx[j] < bidx[k]
+//@   loop 1 invariant [C19] forall m int :: 0 <= m && m < i && !implements(opts[m], CustomNodeOption) && isBaseOpt(opts[m]) ==> 0 <= inv[m] && inv[m] < len(baseAcc) && bidx[inv[m]] == m
+//@   loop 1 invariant [C19] forall j int :: 0 <= j && j < len(custAcc) ==> 0 <= cidx[j] && cidx[j] < i && custAcc[j] == opts[cidx[j]]
+//@   loop 1 invariant [C19] forall j int :: forall k int :: 0 <= j && j < k && k < len(custAcc) ==> cidx[j] < cidx[k]
+//@   loop 1 invariant [C19] forall m int :: 0 <= m && m < i && implements(opts[m], CustomNodeOption) ==> 0 <= cinv[m] && cinv[m] < len(custAcc) && cidx[cinv[m]] == m
 //@   loop 1 invariant [C19] alloc(CustomNode, 1).BaseNode != nil
 //@   loop 1 invariant [C19] fresh(alloc(CustomNode, 1).BaseNode)
 //@   loop 1 invariant [C19] baseDefaults(alloc(CustomNode, 1).BaseNode)
@@ -1104,22 +1117,35 @@ package flyt
 //@   loop 3 invariant [C19] framed(BaseNode)
 //@   ensures [C19] fresh(r) && r.CustomNode == alloc(CustomNode, 1) && fresh(r.CustomNode) && kb == len(baseAcc) && kc == len(custAcc)
 //@   ensures [C19] len(opts) == 0 ==> baseDefaults(r.CustomNode.BaseNode) && r.CustomNode.prepFunc == nil && r.CustomNode.execFunc == nil && r.CustomNode.postFunc == nil && r.CustomNode.execFallbackFunc == nil
+// the two applied lists are exactly the order-preserving sub-sequences (base options / custom options) of the argument list
+//@   ensures [C19] forall j int :: 0 <= j && j < len(baseAcc) ==> 0 <= bidx[j] && bidx[j] < len(opts) && baseAcc[j] == asBaseOpt(opts[bidx[j]])
+//@   ensures [C19] forall j int :: forall k int :: 0 <= j && j < k && k < len(baseAcc) ==> bidx[j] < bidx[k]
+//@   ensures [C19] forall m int :: 0 <= m && m < len(opts) && !implements(opts[m], CustomNodeOption) && isBaseOpt(opts[m]) ==> 0 <= inv[m] && inv[m] < len(baseAcc) && bidx[inv[m]] == m
+//@   ensures [C19] forall j int :: 0 <= j && j < len(custAcc) ==> 0 <= cidx[j] && cidx[j] < len(opts) && custAcc[j] == opts[cidx[j]]
+//@   ensures [C19] forall j int :: forall k int :: 0 <= j && j < k && k < len(custAcc) ==> cidx[j] < cidx[k]
+//@   ensures [C19] forall m int :: 0 <= m && m < len(opts) && implements(opts[m], CustomNodeOption) ==> 0 <= cinv[m] && cinv[m] < len(custAcc) && cidx[cinv[m]] == m
 
+//@ spec func isBaseOpt(x any) bool = isType(x, NodeOption) || isType(x, func(*BaseNode))
+//@ spec func asBaseOpt(x any) NodeOption = isType(x, NodeOption) ? x.(NodeOption) : x.(func(*BaseNode))
 //@ func NewBatchNode(opts) (r)
 //@   requires forall j int :: 0 <= j && j < len(opts) && isType(opts[j], func(*BaseNode)) ==> opts[j].(func(*BaseNode)) != nil
 //@   requires forall j int :: 0 <= j && j < len(opts) && isType(opts[j], NodeOption) ==> opts[j].(NodeOption) != nil
 //@   havoc user
-//@   ghost baseAcc []NodeOption = slice(0, 0, 0, 0); kb int = 0; i int = 0
+//@   ghost baseAcc []NodeOption = slice(0, 0, 0, 0); kb int = 0; i int = 0; bidx [int]int = zeroArr([int]int); inv [int]int = zeroArr([int]int)
 //@   on call NewBaseNode(o) returns (bn)
 //@     requires [C19] len(o) == 0
 //@   on call builtin.append<[]NodeOption>(s0, e) returns (acc)
-//@     effect baseAcc = acc
+//@     requires [C19] s0 == baseAcc && len(e) == 1 && 0 <= i && i < len(opts) && isBaseOpt(opts[i]) && e[0] == asBaseOpt(opts[i])
+//@     effect bidx[len(baseAcc)] = i; inv[i] = len(baseAcc); baseAcc = acc
 //@   on call elem carried<[]NodeOption>(fn, b)
 //@     requires [C19] fn == baseAcc[kb] && b == alloc(CustomNode, 1).BaseNode
 //@     effect kb++
 //@   loop 1 step i++
-//@   loop 1 invariant [C19] 0 <= i && i <= len(opts) && kb == 0 && len(baseAcc) <= i
+//@   loop 1 invariant 0 <= i && i <= len(opts) && kb == 0 && len(baseAcc) <= i && framed([]any)
 //@   loop 1 invariant [C19] forall j int :: 0 <= j && j < len(baseAcc) ==> baseAcc[j] != nil
+//@   loop 1 invariant [C19] forall j int :: 0 <= j && j < len(baseAcc) ==> 0 <= bidx[j] && bidx[j] < i && isBaseOpt(opts[bidx[j]]) && baseAcc[j] == asBaseOpt(opts[bidx[j]])
+//@   loop 1 invariant [C19] forall j int :: forall k int :: 0 <= j && j < k && k < len(baseAcc) ==> bidx[j] < bidx[k]
+//@   loop 1 invariant [C19] forall m int :: 0 <= m && m < i && isBaseOpt(opts[m]) ==> 0 <= inv[m] && inv[m] < len(baseAcc) && bidx[inv[m]] == m
 //@   loop 1 invariant [C19] alloc(CustomNode, 1).BaseNode != nil
 //@   loop 1 invariant [C19] fresh(alloc(CustomNode, 1).BaseNode)
 //@   loop 1 invariant [C19] baseDefaults(alloc(CustomNode, 1).BaseNode)
@@ -1132,3 +1158,7 @@ package flyt
 //@   ensures [C19] fresh(r) && fresh(r.BatchNode) && r.BatchNode.CustomNode == alloc(CustomNode, 1) && fresh(r.BatchNode.CustomNode) && kb == len(baseAcc)
 //@   ensures [C19] r.BatchNode.batchPrepFunc == nil && r.BatchNode.batchPostFunc == nil && r.BatchNode.CustomNode.execFunc == nil
 //@   ensures [C19] len(opts) == 0 ==> baseDefaults(r.BatchNode.CustomNode.BaseNode)
+// the applied list is exactly the order-preserving sub-sequence of base options of the argument list
+//@   ensures [C19] forall j int :: 0 <= j && j < len(baseAcc) ==> 0 <= bidx[j] && bidx[j] < len(opts) && baseAcc[j] == asBaseOpt(opts[bidx[j]])
+//@   ensures [C19] forall j int :: forall k int :: 0 <= j && j < k && k < len(baseAcc) ==> bidx[j] < bidx[k]
+//@   ensures [C19] forall m int :: 0 <= m && m < len(opts) && isBaseOpt(opts[m]) ==> 0 <= inv[m] && inv[m] < len(baseAcc) && bidx[inv[m]] == m
